@@ -10,7 +10,8 @@ use opening_hours_syntax::rules::OpeningHoursExpression;
 use opening_hours_syntax::Error;
 use serde_json::{json, Value};
 
-const KNOBS: [&str; 36] = [
+const KNOBS: [&str; 38] = [
+    "nth_redundant_entries", "nth_entries_reordered",
     "single_digit_hour", "event_zero_offset_explicit", "space_before_dash", "space_around_slash", "repeat_as_minutes",
     "open_end_explicit_24", "spaces_around_time_dash", "day_plural_on_one", "days_singular", "offset_leading_zero",
     "year_plus", "week_single_digit", "year_easter_no_space", "year_date_no_space", "month_day_no_space",
